@@ -32,6 +32,12 @@ fn input_fn<S: TexlangState + common::HasFileSystem>(
     if input.vm().num_current_sources() > 100 {
         return Err(input.fatal_error(TooManyInputs {}));
     }
+    // "If the file is empty, it is considered to contain a single blank line." (TeX.2021.538)
+    let source_code = if source_code.is_empty() {
+        "\n".to_string()
+    } else {
+        source_code
+    };
     input.push_source(input_token, file_path, source_code)?;
     Ok(())
 }
